@@ -121,6 +121,7 @@ func deepApp(loadPerLevel bool, big int) *app.App {
 
 func runC07(c *vk.Ctx) {
 	runC07Deep(c)
+	runC07SinkReuse(c)
 	n := c.N(1600, 60000)
 	for i := 0; i < n; i++ {
 		if !c.Mine(i) {
@@ -409,4 +410,57 @@ func divergeWhat(o, ro *app.Obs) string {
 		return "exec-error"
 	}
 	return "flush-error"
+}
+
+// runC07SinkReuse: programs in which one symbol name is a paginated sink (size 0) in one node and an ordinary
+// size-limited symbol in another (the first one is freed before the second is loaded), visited in both orders,
+// with one- and multi-line content. A renderer that lives as long as the engine must not remember which symbol
+// was the sink of an earlier page.
+func runC07SinkReuse(c *vk.Ctx) {
+	type variant struct {
+		name  string
+		msink bool
+		hist  []string
+	}
+	variants := []variant{
+		{"sink-then-limited", false, []string{"", "1", "0", "2", "0", "1"}},
+		{"limited-then-sink", false, []string{"", "2", "0", "1", "0", "2"}},
+		{"msink-then-limited", true, []string{"", "1", "0", "2", "0", "1"}},
+	}
+	for i, v := range variants {
+		for si, size := range []uint32{0, 60, 200} {
+			key := fmt.Sprintf("sinkreuse/%s/%d", v.name, size)
+			if !c.Mine(i*3+si) || !c.Want(key) {
+				continue
+			}
+			a := app.NewApp()
+			a.FlagCount = 1
+			a.AddNode(&app.Node{Name: "root", Template: "root page", Code: []codec.Ins{
+				{Op: codec.MOUT, S1: "list", S2: "1"}, {Op: codec.MOUT, S1: "summary", S2: "2"}, {Op: codec.HALT},
+				{Op: codec.INCMP, S1: "lst", S2: "1"}, {Op: codec.INCMP, S1: "sum", S2: "2"}}})
+			lst := []codec.Ins{{Op: codec.LOAD, S1: "items", N: 0}, {Op: codec.MAP, S1: "items"}, {Op: codec.MOUT, S1: "back", S2: "0"},
+				{Op: codec.MNEXT, S1: "next", S2: "11"}, {Op: codec.MPREV, S1: "prev", S2: "22"}}
+			tpl := "the list\n{{.items}}"
+			if v.msink {
+				lst = []codec.Ins{{Op: codec.MOUT, S1: "back", S2: "0"}, {Op: codec.MOUT, S1: "one", S2: "5"}, {Op: codec.MOUT, S1: "two", S2: "6"},
+					{Op: codec.MNEXT, S1: "next", S2: "11"}, {Op: codec.MPREV, S1: "prev", S2: "22"}, {Op: codec.MSINK}}
+				tpl = "the list"
+			}
+			lst = append(lst, codec.Ins{Op: codec.HALT}, codec.Ins{Op: codec.INCMP, S1: ">", S2: "11"}, codec.Ins{Op: codec.INCMP, S1: "<", S2: "22"}, codec.Ins{Op: codec.INCMP, S1: "_", S2: "0"})
+			a.AddNode(&app.Node{Name: "lst", Template: tpl, Code: lst})
+			sym := "items"
+			if v.msink {
+				sym = "_menu"
+			}
+			a.AddNode(&app.Node{Name: "sum", Template: "summary:\n{{." + sym + "}}\nend", Code: []codec.Ins{
+				{Op: codec.LOAD, S1: sym, N: 40}, {Op: codec.MAP, S1: sym}, {Op: codec.MOUT, S1: "back", S2: "0"}, {Op: codec.HALT}, {Op: codec.INCMP, S1: "_", S2: "0"}}})
+			a.AddNode(&app.Node{Name: "_catch", Template: "catch page", Code: []codec.Ins{{Op: codec.HALT}, {Op: codec.INCMP, S1: "_", S2: "*"}}})
+			a.Funcs[sym] = &app.FuncSpec{Sym: sym, Kind: "fixed", Fixed: "first line\nsecond line\nthird"}
+			a.Finalize()
+			cfg := app.Config{OutputSize: size, FlagCount: 1, SessionId: "sr", Root: "root"}
+			c.Begin(key)
+			c07Compare(c, key, a, cfg, v.hist, false)
+			c.Count("sink_reuse_histories", 1)
+		}
+	}
 }
